@@ -223,6 +223,9 @@ func vK09dWatch() {
 	qs := make([]int, nOps)
 	for i := range ops {
 		ops[i] = vChoose(4)
+		if f := vParam("FIXEDOP", -1); f >= 0 {
+			ops[i] = f
+		}
 		if ops[i] == 1 {
 			qs[i] = vChoose(len(hNameU))
 		}
